@@ -103,17 +103,29 @@ func runSigScn(scn sigScn, seed int64, variant int) (obs sigObs) {
 		}
 		env = conc.SignEnv(env, ks...)
 		if scn.Junk {
-			// signatures that must never count: lifted from other content (by a trusted key when
-			// there is one), and a repeated block
+			// signatures that must never count: lifted from other content by a key that ALSO signed
+			// validly (when there is one; else by a trusted key / an outsider), and a repeated block.
+			// Their position relative to the valid ones alternates: junk first / junk last.
 			lk := "kU"
-			if len(scn.Pr) > 0 && len(scn.Keys[scn.Pr[0]]) > 0 {
+			if len(scn.Sigs) > 0 {
+				lk = scn.Sigs[(variant/2)%len(scn.Sigs)]
+			} else if len(scn.Pr) > 0 && len(scn.Keys[scn.Pr[0]]) > 0 {
 				lk = scn.Keys[scn.Pr[0]][0]
 			}
+			valid := append([]sslibdsse.Signature{}, env.Signatures...)
 			env = conc.LiftSignature(env, conc.GetKey(seed, lk))
-			if len(scn.Sigs) > 0 {
-				env.Signatures = append(env.Signatures, env.Signatures[0])
+			lifted := env.Signatures[len(env.Signatures)-1]
+			var extra sslibdsse.Signature
+			if len(valid) > 0 {
+				extra = valid[0]
 			} else {
 				env = conc.LiftSignature(env, conc.GetKey(seed, "kJ"))
+				extra = env.Signatures[len(env.Signatures)-1]
+			}
+			if (variant+len(scn.Sigs)+scn.Thr)%2 == 0 {
+				env.Signatures = append([]sslibdsse.Signature{lifted, extra}, valid...)
+			} else {
+				env.Signatures = append(valid, lifted, extra)
 			}
 		}
 	}
